@@ -161,6 +161,13 @@ def gen_cases(ctx, scale=1.0):
         c['interval'] = rng.choice([0, 0.125, 1.0, 1000.0])
         c['fault'] = 'file-size-changed'
         cases.append(c)
+    # the value a cancelling callback answers with: the contract is "not None", so half of the cancelling cases use a
+    # falsy answer (False, 0, '', (), 0.0)
+    from harness.sched import runner as _runner
+    for c in cases:
+        tb = ((c.get('cb') or {}).get('table') or {})
+        if any(str(v).startswith('cancel') for v in tb.values()) and 'answer' not in c['cb'] and rng.random() < 0.5:
+            c['cb'] = dict(c['cb'], answer=rng.randrange(1, len(_runner.CANCEL_ANSWERS)))
     return cases
 
 
